@@ -249,11 +249,10 @@ def parseHOp (s : String) : Option HOp :=
 def parseHOps (s : String) : Option (List HOp) :=
   if s == "-" then some [] else (s.splitOn "+").mapM parseHOp
 
-def ksName (i : Nat) : String := "k" ++ Nat.repr i
-def tblName (j : Nat) : String := "t" ++ Nat.repr j
 
 /-- The known nodes of a peer list: the hook derives the address from the position. -/
-def peersWithAddr (ps : List (Peer × String)) : List (Node × Nat) := ps.zipIdx.map (fun (p, i) => (p.1.node, i))
+def peersWithAddr (ps : List (Peer × String)) : List ((Node × Nat) × Bool) :=
+  ps.zipIdx.map (fun (p, i) => ((p.1.node, i), false))      -- hook nodes: rejected by the host filter
 
 /-- The model's view of one op (`declare` only contributes to the keyspace metadata). -/
 def HOp.toStateOp : HOp → Option StateOp
@@ -274,12 +273,9 @@ def runHist (topo kss opsS cfg req tbl nSamples impl : String) : String :=
       | .learn ks tb _ => some (ks, tb) | .declare ks tb => some (ks, tb) | .refresh _ => none)).eraseDups
     let kssMeta : List (String × Bool × List String) := ks.zipIdx.map (fun (_, i) =>
       (ksName i, declared.any (·.1 == i), (declared.filter (·.1 == i)).map (fun d => tblName d.2)))
-    let inf := ((RState.init kssMeta (peersWithAddr ps0)).run kssMeta (ops.filterMap HOp.toStateOp)).info
+    let st := (RState.init kssMeta (peersWithAddr ps0)).run kssMeta (ops.filterMap HOp.toStateOp)
     let psFinal := topos.getLast?.getD ps0
-    let rc0 := mkRCluster psFinal ks []
-    let rc : RCluster := { rc0 with
-      tables := declared.filterMap (fun d => (Tablets.alGet (ksName d.1, tblName d.2) inf.tables).map (fun t => (d, t.tablets))) }
-    observe rc cfg.1 rq tbl impl
+    observe (RCluster.ofState (mkRCluster psFinal ks []) st declared) cfg.1 rq tbl impl
   | _, _, _, _, _, _, _ => "bad-case"
 
 /-! ### pool / route cases -/
